@@ -34,14 +34,26 @@ class ALine:
     """abstract logical line: matched by regex constant `regex` (None = no statement regex matches: an expression
     statement); groups: name -> 'sym' (participates, non-empty) | None (does not participate) | literal string"""
 
-    def __init__(self, lid, regex, groups=None, also=()):
+    def __init__(self, lid, regex, groups=None, also=(), cont=None, parts=None):
         self.lid = lid
         self.regex = regex
         self.groups = groups or {}
         self.also = tuple(also)
+        self.cont = cont          # None | 'text' | 'blank': the physical line ends in a continuation backslash
+        self.parts = parts        # for a joined logical line: lids of its physical parts
 
     def __repr__(self):
         return f'Line{self.lid}<{self.regex or "expr"}>'
+
+
+class APart:
+    """a physical line with its continuation backslash removed"""
+
+    def __init__(self, line):
+        self.line = line
+
+    def __repr__(self):
+        return f'Part{self.line.lid}'
 
 
 class AMatch:
@@ -111,6 +123,7 @@ class Interp:
         for name in mod.classes:
             self.globals[name] = ('class', name)
         self.depth = 0
+        self.fail_parse = None   # optional oracle: parse_expression(x) raises when fail_parse(x) is true
         self.trace = []      # (event, detail) e.g. stack operations for C01.S
 
     def bad(self, node, what):
@@ -149,7 +162,7 @@ class Interp:
                         names = {norm(e) for e in (h.type.elts if isinstance(h.type, ast.Tuple) else [h.type])}
                     if names is None or sig.cls in names or 'Exception' in names:
                         if h.name:
-                            env[h.name] = Sym('exc', sig.cls)
+                            env[h.name] = Sym('exc', sig.cls, sig.args_)
                         self.exec_block(h.body, env)
                         break
                 else:
@@ -243,7 +256,7 @@ class Interp:
             return bool(v.d)
         if isinstance(v, AList):
             return bool(v.l)
-        if isinstance(v, (AMatch, ALine, ARegex, ModuleFunc)):
+        if isinstance(v, (AMatch, ALine, ARegex, ModuleFunc, APart)):
             return True
         if isinstance(v, Sym):
             if v.kind in ('group', 'parsed', 'unescaped', 'arglist', 'line', 'fstr'):
@@ -383,6 +396,16 @@ class Interp:
         if isinstance(e, ast.Attribute):
             base = self.eval(e.value, env)
             if isinstance(base, Sym):
+                if base.kind == 'exc' and len(base.args) > 1:
+                    a = base.args[1]
+                    if e.attr == 'error' and len(a) > 0:
+                        return a[0]
+                    if e.attr == 'line' and len(a) > 1:
+                        return a[1]
+                    if e.attr == 'column_number' and len(a) > 2:
+                        return a[2]
+                    if e.attr == 'line_number':
+                        return a[3] if len(a) > 3 else None
                 return Sym('attr', base, e.attr)
             self.bad(e, 'attribute access outside the subset')
         if isinstance(e, ast.Call):
@@ -427,7 +450,7 @@ class Interp:
 
     @staticmethod
     def _eq(a, b):
-        if isinstance(a, (ADict, AList, ALine, AMatch)) or isinstance(b, (ADict, AList, ALine, AMatch)):
+        if isinstance(a, (ADict, AList, ALine, AMatch, APart)) or isinstance(b, (ADict, AList, ALine, AMatch, APart)):
             return a is b
         if isinstance(a, Sym) or isinstance(b, Sym):
             if isinstance(a, Sym) and isinstance(b, Sym):
@@ -466,7 +489,7 @@ class Interp:
                 if m == 'sub':
                     subj = args[1]
                     if isinstance(subj, ALine):
-                        return subj
+                        return APart(subj) if subj.cont else subj
                     return Sym('unescaped', subj)
                 if m == 'split':
                     if isinstance(args[0], Sym) and args[0].kind == 'group':
@@ -525,6 +548,10 @@ class Interp:
                 if m == 'copy':
                     return AList(base.l)
                 self.bad(e, f'list method {m}')
+            if isinstance(base, APart):
+                if m in ('strip', 'rstrip', 'lstrip'):
+                    return '' if base.line.cont == 'blank' else base
+                self.bad(e, f'method .{m}() on a continuation part')
             if isinstance(base, (ALine, Sym)):
                 if m in ('strip', 'rstrip', 'lstrip'):
                     return base
@@ -534,6 +561,12 @@ class Interp:
             if isinstance(base, str):
                 if m == 'join':
                     items = self.iterate(args[0], e)
+                    if any(isinstance(x, (APart, ALine)) for x in items) or (items and all(x == '' for x in items) and False):
+                        last = items[-1]
+                        lids = tuple(x.line.lid if isinstance(x, APart) else (x.lid if isinstance(x, ALine) else None) for x in items)
+                        if isinstance(last, ALine):
+                            return ALine(last.lid, last.regex, last.groups, last.also, None, lids)
+                        return Sym('joined', lids)
                     if len(items) == 1:
                         return items[0]
                     if all(isinstance(x, str) for x in items):
@@ -595,6 +628,8 @@ class Interp:
             self.bad(e, f'builtin {name}')
         if isinstance(fn, ModuleFunc):
             if fn.node.name == 'parse_expression':
+                if self.fail_parse is not None and self.fail_parse(args[0]):
+                    raise RaiseSig('BareScriptParserError', (Sym('inner-error'), args[0], Sym('inner-column')), e)
                 return Sym('parsed', args[0])
             return self.call_function(fn.node, args, e)
         if isinstance(fn, tuple) and fn and fn[0] == 'class':
